@@ -832,6 +832,9 @@ func runC07(c *Ctx) {
 		// the belief is still stated: addHeaders fails on a nil sub-bucket
 		add := c.fn("(*headerfs.headerIndex).addHeaders")
 		believes := false
+		// (this rule looks AT a guard clause: the explorations must follow it)
+		ir.DisableNilGuards = true
+		defer func() { ir.DisableNilGuards = false }()
 		for _, f := range ir.WithClosures(add) {
 			for _, x := range find(f, callTo(c.method(wdb, "ReadWriteBucket", "NestedReadWriteBucket"))) {
 				for _, br := range ir.NilBranches(x.(ssa.Value)) {
